@@ -102,8 +102,9 @@ class Runner:
                 out.append(('error', 'RecursionError'))
             except Exception as e:  # any other escape is judged by `judge`
                 out.append(('error', type(e).__name__))
+            # the engine object is unusable after an exception (its stack is not reset); the compiled database is fine
             eng = self.DefaultEngine()
-            db = eng.prepare(self.PrologString(text))
+            db = eng.prepare(db)
         return out
 
 
